@@ -266,7 +266,7 @@ def diff(a, b, path=""):
     return out
 
 
-def check(ctx):
+def _check_own(ctx):
     prog = ctx.prog
     try:
         fp = fingerprint(prog)
@@ -321,3 +321,11 @@ def _count_leaves(x):
     if isinstance(x, list):
         return max(1, sum(_count_leaves(v) for v in x)) if x and isinstance(x[0], (list, dict)) else 1
     return 1
+
+
+def check(ctx):
+    _check_own(ctx)
+    from .engine import import_rules
+    # placement = hash % *stored* table size
+    import_rules(ctx, "c07", {"stored-count-wins"})
+    import_rules(ctx, "c05", {"bucket-index"})
